@@ -252,6 +252,7 @@ class BayesianNetwork(DAG):
         |gradeC   | 0.8  | 0.8    |   0.8   |  0.8 |  0.8   |   0.8  |
         +---------+------+--------+---------+------+--------+--------+
         """
+        # Validate all the arguments before modifying the model.
         for cpd in cpds:
             if not isinstance(cpd, (TabularCPD, ContinuousFactor)):
                 raise ValueError("Only TabularCPD or ContinuousFactor can be added.")
@@ -259,6 +260,7 @@ class BayesianNetwork(DAG):
             if set(cpd.scope()) - set(cpd.scope()).intersection(set(self.nodes())):
                 raise ValueError("CPD defined on variable not in the model", cpd)
 
+        for cpd in cpds:
             for prev_cpd_index in range(len(self.cpds)):
                 if self.cpds[prev_cpd_index].variable == cpd.variable:
                     logger.warning(f"Replacing existing CPD for {cpd.variable}")
@@ -338,9 +340,15 @@ class BayesianNetwork(DAG):
         >>> student.add_cpds(cpd)
         >>> student.remove_cpds(cpd)
         """
+        # Resolve all the arguments before modifying the model.
+        to_remove = []
         for cpd in cpds:
             if isinstance(cpd, (str, int)):
                 cpd = self.get_cpds(cpd)
+            if cpd not in self.cpds:
+                raise ValueError(f"CPD not present in the model: {cpd}")
+            to_remove.append(cpd)
+        for cpd in to_remove:
             self.cpds.remove(cpd)
 
     def get_cardinality(self, node=None):
